@@ -109,11 +109,13 @@ class Analysis:
         "core::convert::num::<impl core::convert::From<bool> for usize>::from": (0, 1),
     }
 
-    def __init__(self, view, arg_intervals=None, summaries=None, ret_len=None, ret_discr=None, forced=None):
+    def __init__(self, view, arg_intervals=None, summaries=None, ret_len=None, ret_discr=None, forced=None,
+                 ret_interval=None):
         self.v = view
         self.body = view.body
         self.summaries = summaries or {}
         self.ret_discr = ret_discr  # callback: (callee key, call terminator, analysis, state) -> discriminant interval
+        self.ret_interval = ret_interval  # callback: (callee key, call terminator, analysis, state) -> interval of an integer result
         self.forced = forced or {}  # block -> the only successor to follow (assumption injected by a rule)
         self.ret_len = ret_len     # callback: (callee key, call terminator, analysis) -> interval of returned slice length
         self.arg_intervals = arg_intervals or {}
@@ -925,6 +927,8 @@ class Analysis:
             sm = self.summaries.get(name)
             if sm is not None:
                 iv = sm(self, st, args)
+            elif self.ret_interval is not None and rng is not None and name in self.v.prog.bodies:
+                iv = self.ret_interval(name, t, self, st)
         for a in args:
             if a.get("o") in ("copy", "move") and not a["p"]:
                 st.shadow.pop(a["l"], None)
@@ -1225,6 +1229,19 @@ class Analysis:
                     if s not in inwork:
                         work.append(s)
                         inwork.add(s)
+
+    def return_interval(self):
+        """Interval of the integer this function returns (None if unknown)."""
+        if self.rng[0] is None:
+            return None
+        out = None
+        for b in self.v.return_blocks():
+            st = self.state_before_term(b)
+            if st is None:
+                continue
+            iv = st.iv.get(0, self.rng[0])
+            out = iv if out is None else join(out, iv)
+        return out
 
     def return_discr(self):
         """Interval of the discriminant of the enum value this function returns (None if unknown)."""
